@@ -262,6 +262,22 @@ def rule_lc_position(ctx: Ctx) -> None:
     if not mats:
         raise AnalysisError("local_comp_graph: adjacency matrix of the input graph not found")
     uses_label = any(isinstance(x, ast.Subscript) and any(isinstance(y, ast.Name) and y.id == vp for y in ast.walk(x.slice)) for x in ast.walk(fn))
+    # a relabelling of the result (position -> label) must use the very order the matrix was built in
+    for rc_ in [c for c in calls_in(fn) if call_attr(c) == "relabel_nodes"]:
+        mp = rc_.args[1] if len(rc_.args) > 1 else get_kw(rc_, "mapping")
+        order_e = None
+        if isinstance(mp, ast.Call) and call_name(mp) == "dict" and mp.args and isinstance(mp.args[0], ast.Call) and call_name(mp.args[0]) == "enumerate" and mp.args[0].args:
+            order_e = norm(mp.args[0].args[0])
+        built = {norm(get_kw(c, "nodelist")) if get_kw(c, "nodelist") is not None else f"{gp}.nodes()" for c in mats}
+        same = order_e is not None and (order_e in built or (order_e in (f"{gp}.nodes()", f"{gp}.nodes", f"list({gp}.nodes())", f"list({gp})", gp) and f"{gp}.nodes()" in built))
+        if same:
+            ctx.ok("lc.position", m, rc_, what="result relabelled with the order the matrix was built in")
+        else:
+            ctx.fail("lc.position", m, rc_,
+                     f"local_comp_graph relabels its result with `{short(mp, 60)}` while the adjacency matrix was built in the order {sorted(built)}: "
+                     f"position k of the matrix is not the k-th node of that other order unless the graph's nodes were inserted in sorted order, so "
+                     f"the returned graph is a relabelled copy of the local complement — outside the LC orbit", func="local_comp_graph",
+                     construct="local_comp_graph: result relabelled with a different node order than the matrix")
     for c in mats:
         nl = get_kw(c, "nodelist")
         t = norm(nl) if nl is not None else None
@@ -370,6 +386,7 @@ def rule_lc_toggle(ctx: Ctx) -> None:
 
 
 KNOCKOUTS = [
+    Knockout("lc-result-relabelled-insertion-order", LCE, sub_once("    new_graph = nx.to_networkx_graph(new_adj_matrix)\n", "    new_graph = nx.to_networkx_graph(new_adj_matrix)\n    new_graph = nx.relabel_nodes(new_graph, dict(enumerate(input_graph.nodes())))\n"), "lc.position", "different node order"),
     Knockout("lc-equivalent-swapped", GRAPH, sub_once("        return is_lc_equivalent(g1, g2, mode=mode)", "        return is_lc_equivalent(g2, g1, mode=mode)"), "lc.direction", "arguments swapped"),
     Knockout("lc-matrix-insertion-order", LCE, sub_once("        input_graph, nodelist=sorted(input_graph.nodes())\n", "        input_graph\n"), "lc.position", "label used as position", on_fixed_only=True),
     Knockout("find-lc-second-graph", LCE, sub_once("        op_list = lc_graph_operations(adj_matrix1, solution)", "        op_list = lc_graph_operations(adj_matrix2, solution)"), "lc.sequence-source", "second graph", on_fixed_only=True),
